@@ -980,6 +980,36 @@ func main() {
 			}
 		}
 		emitStrList("evalUncheckedAssertions", unchecked, files["query/compiler.go"] != nil)
+		// purity of the filter package: what it imports, and that it has no package-level variables — a built
+		// filter's answer can depend only on the filter text and the metadata (C14)
+		var imps, globals []string
+		seenImp := map[string]bool{}
+		for fname, f := range files {
+			if !strings.HasPrefix(fname, "query/") || strings.HasSuffix(fname, "_test.go") || f == nil {
+				continue
+			}
+			for _, im := range f.Imports {
+				if v := strings.Trim(im.Path.Value, "\""); !seenImp[v] {
+					seenImp[v] = true
+					imps = append(imps, v)
+				}
+			}
+			for _, d := range f.Decls {
+				if gd, ok := d.(*ast.GenDecl); ok && gd.Tok == token.VAR {
+					for _, sp := range gd.Specs {
+						if vs, ok := sp.(*ast.ValueSpec); ok {
+							for _, n := range vs.Names {
+								globals = append(globals, fname+":"+n.Name)
+							}
+						}
+					}
+				}
+			}
+		}
+		sort.Strings(imps)
+		sort.Strings(globals)
+		emitStrList("queryImports", imps, len(imps) > 0)
+		emitStrList("queryGlobals", globals, true)
 	}
 
 	// --- lock programs of Collection methods
